@@ -776,6 +776,13 @@ class Gridder(GeospatialGrid):
             _lons_for_lat_intersections = np.multiply(
                 np.expand_dims(_slopes, axis=1), _lat_lines_intersected
             ) + np.expand_dims(_intercepts, axis=1)
+            # For a segment that runs (almost) along a parallel the line
+            # equation is ill-conditioned: keep the crossing on the segment.
+            _lons_for_lat_intersections = np.clip(
+                _lons_for_lat_intersections,
+                np.minimum(lons[:-1], lons[1:])[_mask][:, np.newaxis],
+                np.maximum(lons[:-1], lons[1:])[_mask][:, np.newaxis],
+            )
 
             # now store the lat lines intersected by the segment in the
             # lat_lines_intersected array
@@ -826,6 +833,13 @@ class Gridder(GeospatialGrid):
 
             _lats_for_lon_intersections[_inf_mask] = np.expand_dims(
                 _lats[_inf_mask], axis=1
+            )
+            # For a segment that runs (almost) along a meridian the line
+            # equation is ill-conditioned: keep the crossing on the segment.
+            _lats_for_lon_intersections = np.clip(
+                _lats_for_lon_intersections,
+                np.minimum(lats[:-1], lats[1:])[_mask][:, np.newaxis],
+                np.maximum(lats[:-1], lats[1:])[_mask][:, np.newaxis],
             )
 
             # now store the lon lines intersected by the segment in the
